@@ -157,3 +157,24 @@ Theorem C14_subset_error_iff_uncovered :
     (exists w, In w wants /\ ~ In w ts).
 Proof. exact @subset_error_iff. Qed.
 Print Assumptions C14_subset_error_iff_uncovered.
+
+(** "... and supplying the true hashes at those positions makes verification succeed"
+    (Proofs/PartialProofComplete.v): on every state consistent with the reference forest (any allocated
+    height, full or partial), for any distinct live leaves (remembered or not) given by their
+    positions, the mirror of [MapPollard.GetMissingPositions] reports exactly the canonical proof
+    positions that are not stored, and [VerifyPartialProof] given the true hashes at exactly those
+    positions ACCEPTS, returning the expected root indexes. *)
+From Utreexo Require Import Model.MapRead Proofs.MapReadSpec Proofs.PartialProofComplete.
+
+Theorem C14_partial_proof_protocol_complete :
+  forall (H : Type) (HO : ops H) (s : slots H) (R : list H) (m : mstate H) (hs : list H) (ts : list N)
+         (pf : list H),
+    ops_ok HO -> (forall a b, NZ HO (op_hash2 HO a b)) -> (forall h, In (Some h) s -> NZ HO h) ->
+    consistent HO s R m -> NoDup hs -> exp_prove HO (mk_ctx HO s) hs = Some (ts, pf) ->
+    let missing := GetMissingPositions m ts in
+    let supplied := map (hash_at HO (rows_of (num_leaves s)) (layout HO s)) missing in
+    exp_missing_stored HO (mk_ctx HO s) hs (stored_min m) = Some missing /\
+    exists idx, VerifyPartialProof HO m ts hs supplied = Ok idx /\
+                exp_root_indexes HO (mk_ctx HO s) hs = Some idx.
+Proof. exact @partial_proof_complete. Qed.
+Print Assumptions C14_partial_proof_protocol_complete.
